@@ -389,6 +389,8 @@ def check(an, rep, tier):
     _callers = {f.qualname for f in prog.all_functions()
                 if f.module.name in ('anova', 'anova_func')}
     _RP.check_param_forwarding(prog, rep, callers=_callers)
+    from .. import rules_proto as _RPZ
+    _RPZ.check_none_vs_zero(prog, rep, modules={'anova', 'anova_func'})
     rep.floor('T-pattern', 3, 'core patterns')
     rep.floor('T-identity', 1, 'chaining cores')
     rep.floor('T-pair-term', 2, 'pair terms')
